@@ -237,6 +237,7 @@ def region_pair(rng):
 def check_first_sentence(A, B, m, seed2):
     """provenance, distance clause, inputs unmodified, empty intersection; returns (failures, measured)"""
     fails, meas = [], {'max_dist': 0.0, 'max_piece_err': 0.0, 'curved_segments': 0, 'straight_segments': 0}
+    A, B = cg.prepared(A, B, m)
     A_pts, B_pts = cg.path_pts(A), cg.path_pts(B)
     before = (cg.deep_repr(A), cg.deep_repr(B))
     ids_in = {id(s) for p in (A, B) for s in p.asSegments()} | {id(q) for p in (A, B) for s in p.asSegments() for q in s.points}
@@ -274,6 +275,8 @@ def check_first_sentence(A, B, m, seed2):
     if before != (cg.deep_repr(A), cg.deep_repr(B)): fails.append(('C13-modified', 'an input path changed (deep repr of closed flag, kinds, control points)'))
     if m.get('config') == 'disjoint' and 'intersection' in results and results['intersection'] != []:
         fails.append(('C13-empty', f"intersection of disjoint shapes is {results['intersection']!r}, not []"))
+    if m.get('expect_empty') and results.get('intersection'):
+        fails.append(('C13-empty', f"the receiver lies in the doubly wound core of the argument (outside its even-odd interior): the intersection is empty, but {len(results['intersection'])} path(s) were returned"))
     return fails, meas, results
 
 
@@ -354,6 +357,7 @@ def search(ctx):
             (cg.Circle(50, origin=P(0, 0)), cg.Circle(50, origin=P(0, 0)), {'kinds': ['circle', 'circle'], 'config': 'corpus-identical'}),
             (cg.Rectangle(100, 100, origin=P(0, 0)), cg.Circle(50, origin=P(0, 0)), {'kinds': ['rect', 'circle'], 'config': 'corpus-inscribed'}),
             (cg.Ellipse(120, 20, origin=P(0, 0)), cg.Rectangle(10, 10, origin=P(300, 0)), {'kinds': ['ellipse', 'rect'], 'config': 'disjoint'})]
+    todo += [cg.core_pair(rng) for _ in range(2)]
     for i in range(ctx.n(22, 1000)):
         todo.append(cg.gen_pair(rng, config=cg.CONFIGS[i % 4], big=None if ctx.tier == 'thorough' else (i % 11 == 0)))
     for A, B, m in todo:
